@@ -90,6 +90,7 @@ type Result struct {
 	CloseHang  bool
 	ClosedOK   bool
 	SendPanic  string
+	GoPanic    string // a goroutine of the producer panicked (sarama.PanicHandler)
 	Batches    []sarama.VerifSimBatch
 	Requests   []sarama.VerifSimRequestInfo
 	Logs       map[int32][]sarama.VerifSimRecord
@@ -333,6 +334,21 @@ func Gen(seed uint64, focus string) *Scenario {
 			left -= b
 		}
 	}
+	if focus == "C02" && seed%2 == 0 && len(sc.Msgs) > 0 {
+		// family inside the scope of the composed system model (Model.Pipeline, replayed by the C02 driver): one
+		// partition in use, not idempotent, Retry.Max 1-5, acknowledgements on; every fault kind stays
+		p0 := sc.Msgs[0].Partition
+		for i := range sc.Msgs {
+			sc.Msgs[i].Partition = p0
+		}
+		sc.Idempotent, sc.DupAsError = false, false
+		if sc.RetryMax == 0 {
+			sc.RetryMax = 1 + int(seed/2%5)
+		}
+		if sc.Acks == sarama.NoResponse {
+			sc.Acks = sarama.WaitForLocal
+		}
+	}
 	return sc
 }
 
@@ -489,6 +505,15 @@ func Run(sc *Scenario) *Result {
 		}
 	}
 	defer func() { sarama.VerifSink = nil }()
+	// a panic inside a goroutine of the library must not take the harness process down: it is an outcome
+	sarama.PanicHandler = func(v interface{}) {
+		evMu.Lock()
+		defer evMu.Unlock()
+		if res.GoPanic == "" {
+			res.GoPanic = fmt.Sprint(v)
+		}
+	}
+	defer func() { sarama.PanicHandler = nil }()
 
 	msgs := make([]*sarama.ProducerMessage, len(sc.Msgs))
 	for i, m := range sc.Msgs {
